@@ -150,7 +150,11 @@ func stringModels(t *tbl) {
 		return absint.Str(strings.Replace(str(a[0]), str(a[1]), str(a[2]), int(n)))
 	}
 	t.ext["strings.ReplaceAll"] = func(ip *absint.Interp, a []absint.Value) absint.Value {
-		return absint.Str(strings.ReplaceAll(str(a[0]), str(a[1]), str(a[2])))
+		src, old, new := str(a[0]), str(a[1]), str(a[2])
+		if n := strings.Count(src, old); len(src)+n*(len(new)-len(old)) > 1<<20 {
+			panic(&absint.Undecided{Msg: "a text that keeps growing (beyond a megabyte): substitution does not come to an end"})
+		}
+		return absint.Str(strings.ReplaceAll(src, old, new))
 	}
 	t.ext["strings.Join"] = func(ip *absint.Interp, a []absint.Value) absint.Value {
 		l, ok := a[0].(*absint.List)
@@ -199,6 +203,16 @@ func stringModels(t *tbl) {
 			return absint.Tuple{absint.Int(0), t.newErr("Atoi")}
 		}
 		return absint.Tuple{absint.Int(n), absint.Nil{}}
+	}
+	t.ext["strconv.FormatBool"] = func(ip *absint.Interp, a []absint.Value) absint.Value {
+		b, ok := a[0].(absint.Bool)
+		if !ok {
+			panic(&absint.Undecided{Msg: "FormatBool of a non-literal"})
+		}
+		if b {
+			return absint.Str("true")
+		}
+		return absint.Str("false")
 	}
 	t.ext["strconv.Itoa"] = func(ip *absint.Interp, a []absint.Value) absint.Value {
 		n, _ := a[0].(absint.Int)
